@@ -95,7 +95,7 @@ func (m *typecacheMeta) ruleText(tok string) string {
 
 // makeType builds a struct type with one int field per model field; the rule of (tag, field) goes into the
 // struct tag under that tag name. The nonce makes the type distinct from every other type of the same shape.
-func (m *typecacheMeta) makeType(shape typecacheShape, nonce string) reflect.Type {
+func (m *typecacheMeta) makeType(shape typecacheShape, nonce string, nested bool) reflect.Type {
 	tags := make([]string, 0, len(shape))
 	for t := range shape {
 		tags = append(tags, t)
@@ -115,6 +115,22 @@ func (m *typecacheMeta) makeType(shape typecacheShape, nonce string) reflect.Typ
 			parts = append(parts, "vh:"+strconv.Quote(nonce))
 		}
 		fs = append(fs, reflect.StructField{Name: f, Type: reflect.TypeOf(int(0)), Tag: reflect.StructTag(strings.Join(parts, " "))})
+		if i == 0 && nested {
+			// a rule-less inner struct reached through `exist` between the ruled fields: one validation then looks up
+			// two types (more than a capacity-0/1 cache holds) while the outer type's analysis is still in use;
+			// the inner struct has no rules, so the result of the call is the one of the flat type
+			// (two different inner types: the second one is analysed after the first one's entry has pushed the outer
+			// type out of a small cache)
+			for _, nm := range []string{"Nx", "Ny"} {
+				// (as many fields as the outer type and more, so that an analysis table shared by mistake is overwritten
+				// up to and beyond the outer type's last ruled field)
+				inner := reflect.StructOf([]reflect.StructField{
+					{Name: "X", Type: reflect.TypeOf(int(0)), Tag: reflect.StructTag("vh:" + strconv.Quote(nonce+"/"+nm))},
+					{Name: "X1", Type: reflect.TypeOf(int(0))}, {Name: "X2", Type: reflect.TypeOf("")},
+					{Name: "X3", Type: reflect.TypeOf(int(0))}, {Name: "X4", Type: reflect.TypeOf(int(0))}, {Name: "X5", Type: reflect.TypeOf(int(0))}})
+				fs = append(fs, reflect.StructField{Name: nm, Type: inner, Tag: `a:"exist" b:"exist" valid:"exist"`})
+			}
+		}
 	}
 	return reflect.StructOf(fs)
 }
@@ -132,6 +148,7 @@ type typecacheConfig struct {
 	cap      int
 	wrapped  bool
 	newInner func(onEvict func(key interface{})) valid.CacheEr
+	raw      func() valid.CacheEr // installed as it is, no tracing wrapper (the library sees the concrete cache type)
 }
 
 func typecacheParseConfig(name string) (*typecacheConfig, error) {
@@ -153,6 +170,12 @@ func typecacheParseConfig(name string) (*typecacheConfig, error) {
 	case name == "miss":
 		return &typecacheConfig{name: name, kind: "forget", wrapped: true,
 			newInner: func(func(interface{})) valid.CacheEr { return typecacheMissCache{} }}, nil
+	case strings.HasPrefix(name, "rawlru"):
+		c, err := strconv.Atoi(name[6:])
+		if err != nil || c < 0 {
+			return nil, fmt.Errorf("bad cache configuration %q", name)
+		}
+		return &typecacheConfig{name: name, kind: "lru", cap: c, raw: func() valid.CacheEr { return valid.NewLRU(c) }}, nil
 	case strings.HasPrefix(name, "lru"):
 		c, err := strconv.Atoi(name[3:])
 		if err != nil || c < 0 {
@@ -308,6 +331,8 @@ func typecacheNewDriver(meta *typecacheMeta, cfgName string, out *lineWriter) (*
 		}
 		d.freshInner()
 		valid.SetStructTypeCache(d.tr) // once per process
+	} else if cfg.raw != nil {
+		valid.SetStructTypeCache(cfg.raw()) // once per process
 	}
 	return d, nil
 }
@@ -349,7 +374,9 @@ func (d *typecacheDriver) typeOf(id string, shape typecacheShape) reflect.Type {
 	if t, ok := d.types[id]; ok {
 		return t
 	}
-	t := d.meta.makeType(shape, id)
+	// replay direction only (no cache events are validated there): every other type gets the nested form
+	nested := d.out == nil && len(d.types)%2 == 1
+	t := d.meta.makeType(shape, id, nested)
 	d.types[id] = t
 	d.shapes[id] = shape
 	d.st.DistinctTypes++
@@ -391,8 +418,13 @@ func (d *typecacheDriver) exec(id string, shape typecacheShape, tag string, ov m
 		d.out.put(typecacheEvCall{"call", d.c, id, d.shapes[id], tag, ov, val})
 	}
 	pv := reflect.New(t)
-	for i, f := range d.meta.Fields {
-		pv.Elem().Field(i).SetInt(int64(val[f]))
+	for _, f := range d.meta.Fields {
+		pv.Elem().FieldByName(f).SetInt(int64(val[f]))
+	}
+	for _, nm := range []string{"Nx", "Ny"} {
+		if nx := pv.Elem().FieldByName(nm); nx.IsValid() {
+			nx.Field(0).SetInt(1) // non-zero, so that `exist` enters it
+		}
 	}
 	var rm valid.RM
 	for _, f := range d.meta.Fields {
